@@ -10,8 +10,9 @@
         res is Ok ==> final(self).linear_constraints@.len() > 0,
         res is Ok ==> final(self).linear_constraints@.last().name == name && final(self).linear_constraints@.last().comparison == comparison,
         res is Ok ==> row_fin(final(self).linear_constraints@.last()),
-        res is Ok ==> forall|env: Env| #[trigger] lz_ok(*final(self), env) && row_holds(final(self).linear_constraints@.last(), env)
-                    && sem(lhs, env) is Some && sem(rhs, env) is Some ==> cmp_sem(comparison, sem(lhs, env)->Some_0, sem(rhs, env)->Some_0),
+        // the grown context (its rows now include the emitted one) implies the source constraint wherever both sides are defined
+        res is Ok ==> forall|env: Env| #[trigger] lz_ok(*final(self), env) && sem(lhs, env) is Some && sem(rhs, env) is Some
+                    ==> cmp_sem(comparison, sem(lhs, env)->Some_0, sem(rhs, env)->Some_0),
 @fn Linearizer::emit_constraint @entry
     let ghost src = Exp::BinOp(BinOp::Sub, Box::new(lhs), Box::new(rhs));
     proof { lemma_exp_fin(src); }
@@ -20,14 +21,33 @@
     let ghost lc = value;
 @fn Linearizer::emit_constraint @tail 1
     proof {
-        lemma_lz_same(mid, *self);
-        lemma_lz_ext_trans(*old(self), mid, *self);
-        let row = self.linear_constraints@.last();
+        let cf = *self;
+        let row = cf.linear_constraints@.last();
         lemma_f_neg(lc.current_rhs);
         assert(row.lhs == lc.current_vars && row.rhs == f_neg(lc.current_rhs) && row.comparison == comparison && row.name == name);
-        assert forall|env: Env| #[trigger] lz_ok(*self, env) && row_holds(row, env) && sem(lhs, env) is Some && sem(rhs, env) is Some
+        assert(cf.linear_constraints@ == mid.linear_constraints@.push(row));
+        assert(cf.constraints == mid.constraints && cf.domain == mid.domain && cf.bounds == mid.bounds);
+        assert(row_fin(row));
+        // frame: only a row was added
+        assert(lz_inv(cf)) by {
+            reveal(lz_inv);
+            assert forall|r: MidLinearConstraint| #[trigger] cf.linear_constraints@.contains(r) implies row_fin(r) by {
+                let j = choose|j: int| 0 <= j < cf.linear_constraints@.len() && cf.linear_constraints@[j] == r;
+                if j < mid.linear_constraints@.len() { assert(mid.linear_constraints@[j] == r); assert(mid.linear_constraints@.contains(r)); }
+            }
+        }
+        assert(lz_ext(mid, cf)) by {
+            reveal(lz_ext);
+            assert forall|r: MidLinearConstraint| #[trigger] mid.linear_constraints@.contains(r) implies cf.linear_constraints@.contains(r) by {
+                let j = choose|j: int| 0 <= j < mid.linear_constraints@.len() && mid.linear_constraints@[j] == r;
+                assert(cf.linear_constraints@[j] == r);
+            }
+        }
+        lemma_lz_ext_trans(*old(self), mid, cf);
+        assert forall|env: Env| #[trigger] lz_ok(cf, env) && sem(lhs, env) is Some && sem(rhs, env) is Some
             implies cmp_sem(comparison, sem(lhs, env)->Some_0, sem(rhs, env)->Some_0) by {
-            assert(lz_ok(mid, env));
+            lemma_lz_ext_mono(mid, cf, env);
+            assert(row_holds(row, env)) by { reveal(lz_ok); assert(cf.linear_constraints@[cf.linear_constraints@.len() - 1] == row); assert(cf.linear_constraints@.contains(row)); }
             lemma_sem_binop(BinOp::Sub, Box::new(lhs), Box::new(rhs), env);
             let l = sem(lhs, env)->Some_0; let r = sem(rhs, env)->Some_0;
             assert(sem(src, env) == Some(l - r));
